@@ -1,5 +1,6 @@
 import CanvasModel.Driver
 import CanvasModel.C12
+import CanvasModel.C12.Verdict
 /-!
 Driver for C12. One line = one drawing program for one back-end:
 
@@ -223,19 +224,12 @@ def renderElem (dict : Dict) (pats : List Nat) (e : SElem Float) : List String :
     (if e.items.isEmpty then [] else ["style=" ++ ";".intercalate (e.items.map (itemText dict pats ":"))])
    else e.items.map (itemText dict pats "="))
 
-/-- the `<defs>` the SVG renderer writes at the first use of a gradient (svg.go 175-180, 564-590) -/
-def svgDefs (d : Draw Float) (pats : List Nat) : List Nat × List String :=
-  let use := fun (p : Paint) (on : Bool) (st : List Nat × List String) =>
-    match p with
-    | .grad i => if on && !st.1.contains i then (st.1 ++ [i], st.2 ++ ["defs:p" ++ toString (st.1.length + 1)]) else st
-    | _ => st
-  use d.stroke (d.stroke.has && decide ((0.0 : Float) < d.width)) (use d.fill d.hasFill (pats, []))
-
 def svgProgText (dict : Dict) : List (Draw Float) → List Nat → List (List String)
   | [], _ => []
   | d :: ds, pats =>
-    let r := svgDefs d pats
-    (r.2 ++ (svgDraw floatNum d).flatMap (renderElem dict r.1)) :: svgProgText dict ds r.1
+    let r := svgDefs floatNum d pats
+    ((r.2.map (fun i => "defs:p" ++ toString (idxOf i r.1 + 1))) ++ (svgDraw floatNum d).flatMap (renderElem dict r.1)) ::
+      svgProgText dict ds r.1
 
 def pdfProgText (dict : Dict) : List Rec → PPage Float → List (List String)
   | [], _ => []
@@ -293,7 +287,75 @@ def psItems : List (Draw Float) → SW Float → SG Float → List (List (Painte
     let i := psRun g r.2
     i.2 :: psItems ds r.1 i.1
 
+/-! verdict lines: `PDFV <dict> <n> item^n OBS <npages> page^npages <ncalls> (<ntok> tok^ntok)^ncalls`,
+page := `<nExt> (name CA ca)^nExt <nPat> name^nPat <nXo> name^nXo` (numbers as printed text) -/
+open Canvas.C12.Verdict in
+def pPage : P Res := do
+  let ne ← pNat
+  let ext ← pMany (do
+    let n ← tok
+    let a ← tok
+    let b ← tok
+    match parseDec a, parseDec b with
+    | some x, some y => pure (n, x, y)
+    | _, _ => failure) ne
+  let np ← pNat
+  let pats ← pMany tok np
+  let nx ← pNat
+  let xo ← pMany tok nx
+  pure { ext := ext, pats := pats, xobjs := xo }
+
+def pCallToks : P (List String) := do
+  let n ← pNat
+  pMany tok n
+
+open Canvas.C12.Verdict in
+/-- walk the calls: the model supplies the reference items, the interpreter the observed ones -/
+def verdictLoop : List Rec → List (List String) → List Res → Res → TG → Bind → Nat → Nat → String
+  | [], _, _, _, _, _, i, n => "ok " ++ toString i ++ " " ++ toString n
+  | _ :: _, [], _, _, _, _, i, _ => "FAIL protocol call=" ++ toString i
+  | r :: rs, toks :: tss, pages, res, g, b, i, n =>
+    match r with
+    | .page =>
+      match pages with
+      | res' :: pages' =>
+        let o := tokRun res' tg0 (dropM toks)
+        if o.2.isEmpty then verdictLoop rs tss pages' res' o.1 [] (i + 1) n
+        else "FAIL page-prefix call=" ++ toString i
+      | [] => "FAIL protocol call=" ++ toString i
+    | .image =>
+      let o := tokRun res g (dropM toks)
+      match matchItems fclose b [TItem.image 1.0] o.2 with
+      | (some c, _) => "FAIL " ++ c ++ " call=" ++ toString i
+      | (none, b') => verdictLoop rs tss pages res o.1 b' (i + 1) (n + 1)
+    | .draw d =>
+      let o := tokRun res g (dropM toks)
+      let e := (pdfRef floatNum d).map expected
+      match matchItems fclose b e o.2 with
+      | (some c, _) => "FAIL " ++ c ++ " call=" ++ toString i
+      | (none, b') => verdictLoop rs tss pages res o.1 b' (i + 1) (n + e.length)
+
+open Canvas.C12.Verdict in
+def pVerdict : P String := do
+  let (_, rs) ← pLine
+  let t ← tok
+  if t != "OBS" then failure
+  let np ← pNat
+  let pages ← pMany pPage np
+  let nc ← pNat
+  let tss ← pMany pCallToks nc
+  let pre ← pCallToks          -- the first page's content before the first call (` … cm`)
+  match pages with
+  | res :: rest =>
+    let o := tokRun res tg0 (dropM pre)
+    pure (verdictLoop rs tss rest res o.1 [] 0 0)
+  | [] => failure
+
 def handle : List String → Option String
+  | "PDFV" :: rest =>
+    match pVerdict.run rest with
+    | some (v, []) => some v
+    | _ => none
   | tag :: rest =>
     match (pLine.run rest) with
     | some ((dict, rs), []) =>
